@@ -60,7 +60,12 @@ def run(name, checks):
     d = tempfile.mkdtemp(prefix="seedrun_", dir="/var/tmp")
     try:
         sh(f"git -C /repo archive HEAD schwifty | tar -x -C {d}")
-        ap = sh(f"cd {d} && git apply --unsafe-paths --directory={d} {os.path.join(dst, 'patch.diff')} 2>&1 || patch -p1 -d {d} < {os.path.join(dst, 'patch.diff')}")
+        ap = sh(f"patch -p1 -s -d {d} < {os.path.join(dst, 'patch.diff')}")
+        if ap.returncode != 0:
+            print(name, "PATCH DOES NOT APPLY to the current tree:", (ap.stdout + ap.stderr)[-200:])
+            meta.setdefault("checks", {})["_apply"] = {"exit": -1, "wall_s": 0, "lines": ["patch does not apply to the current /repo HEAD"]}
+            json.dump(meta, open(os.path.join(dst, "meta.json"), "w"), indent=1)
+            return
         for c in checks:
             t = time.time()
             r = sh(f"./check {c} --tier quick", cwd=ROOT, env={**os.environ, "SX_ROOT": d, "VERIF_NO_EVIDENCE": "1"})
